@@ -1219,6 +1219,12 @@ package memberlist
 //@   safety [C20]
 //@   panics documented
 //@   requires ok: mlNet(m)
+// construction: what every contract above takes as `mlNet(m)` (except the validity of the user's configuration,
+// which Create does not check) is established by newMemberlist
+//@ func newMemberlist(conf)
+//@   requires conf: conf != nil
+//@   ensures built [C20]: result1 == nil ==> result0 != nil && result0.config == conf && result0.awareness != nil && result0.nodeMap != nil && result0.nodeTimers != nil && result0.broadcasts != nil && result0.broadcasts.NumNodes != nil && result0.logger != nil && result0.highPriorityMsgQueue != nil && result0.lowPriorityMsgQueue != nil && result0.transport != nil && result0.ackHandlers != nil
+
 //@ func (*Memberlist).Shutdown(m)
 //@   safety [C20]
 //@   requires ok: mlNet(m)
